@@ -408,3 +408,46 @@ Example want_zero_refills :
   fst (reader toy_gzip_dec 4 (istream_init (toy_dec_init 0 0 false) ex_z [])
               ((4%nat, 4%nat) :: repeat (0%nat, 4%nat) 5) []) = (ex_p, REof).
 Proof. vm_compute. reflexivity. Qed.
+
+(* ---- non-vacuity of truncated_is_error / not_a_stream_never_eof: the Member / Stream premises exhibited (independent audit) ---- *)
+(* all hypotheses of truncated_is_error on the instance of ex_truncated_gzip:
+   zs = first member of ex_z, x ++ y = second member, cut after 3 bytes *)
+Example ex_truncated_hyps :
+  format_ok TMember /\ ddrv_contract TMember tdst toy_gzip_dec TRep /\ 0 < 4 /\
+  TRep (toy_dec_init 0 0 false) [] [] /\
+  exists zs ps x y p,
+    Stream TMember zs ps /\ TMember (x ++ y) p /\ x <> [] /\ y <> [] /\
+    zs ++ x = firstn 15 ex_z /\
+    fst (reader toy_gzip_dec 4 (istream_init (toy_dec_init 0 0 false) (zs ++ x) [])
+                (repeat (4%nat, 4%nat) 10) []) = (firstn 8 ex_p, RErr).
+Proof.
+  split. exact toy_format. split. exact toy_gzip_dec_ok. split. reflexivity.
+  split; [apply toy_dec_init_rep|].
+  exists [167; 1; 3; 97; 98; 99; 2; 5; 0; 122; 0; 136], ([97; 98; 99] ++ repeat 122 5 ++ []),
+         [167; 3; 3], [0; 113], (repeat 113 3).
+  split.
+  - apply stream_one.
+    apply R_magic; [reflexivity|]. apply R_tag_lit; [reflexivity|]. apply R_litlen; [discriminate|].
+    change (nat_of_byte 3) with 3%nat. do 3 apply R_litS. apply R_lit0.
+    apply R_tag_run; [reflexivity|]. apply R_runlo. apply R_runhi; [reflexivity|]. apply R_runb.
+    apply (R_out _ 5%nat 122 [0; 136] []). apply R_tag_end; [reflexivity|]. apply R_chk. reflexivity.
+  - split.
+    + apply R_magic; [reflexivity|]. apply R_tag_fin; [reflexivity|]. apply R_runlo. apply R_runhi; [reflexivity|].
+      apply R_runb. apply (R_out_fin _ 3%nat 113).
+    + split; [discriminate|]. split; [discriminate|]. split; vm_compute; reflexivity.
+Qed.
+
+(* the hypothesis of not_a_stream_never_eof is satisfiable: one garbage byte *)
+Example ex_not_a_stream : forall P, ~ Stream TMember [0] P.
+Proof.
+  intros P H. inversion H as [|z p zs ps HM HS E1 E2]; subst.
+  destruct z as [|c z].
+  - inversion HM.
+  - simpl in E1. injection E1 as -> E.
+    inversion HM; subst. vm_compute in H2. discriminate.
+Qed.
+
+Example ex_not_a_stream_run :
+  fst (reader toy_gzip_dec 4 (istream_init (toy_dec_init 0 0 false) [0] []) (repeat (4%nat, 4%nat) 3) [])
+  = ([], RErr).
+Proof. vm_compute. reflexivity. Qed.
